@@ -250,6 +250,33 @@ def _enum_minimise(case, verdict, current_dir):
     return cur, cur_v
 
 
+def _enum_contains(case, mcase):
+    """Does `case` contain the minimal failing input `mcase` (same configuration where mcase needs one, all of
+    mcase's non-filler tokens in the same field)?  Then its failure is attributed to mcase's root cause."""
+    t, m = case['tokens'], mcase['tokens']
+    if mcase['shell'] and not case['shell']:
+        return False
+    for field in ('cmd', 'args'):
+        have = list(t[field])
+        for k in m[field]:
+            if k == 'plain':
+                continue
+            if k not in have:
+                return False
+            have.remove(k)
+    if (m['args'] or m['form'] != 'none') and m['form'] != t['form']:
+        return False
+    if m['sep'] != ' ' and m['sep'] != t['sep']:
+        return False
+    if mcase['env'] is not None and mcase['env'] != case['env']:
+        return False
+    if mcase['copy_env'] and not case['copy_env']:
+        return False
+    if mcase['working_dir'] != ENUM_CWD_FIXED and mcase['working_dir'] != case['working_dir']:
+        return False
+    return True
+
+
 # -- seams -----------------------------------------------------------------------------------------
 
 class _EnumFakePopen(object):
@@ -412,8 +439,9 @@ def run_shard(shard, tier):
     r = EnumResult()
     r.info['skipped_reference_undefined'] = 0
     r.info['process_creation_calls_observed'] = 0
+    r.info['failing_evaluations'] = 0
     r.info['failing_inputs_minimised'] = 0
-    min_cache, reported = {}, set()
+    minimal = {}
     cwd = os.getcwd()
     with _enum_seams():
         for case in _enum_cases(shard):
@@ -428,15 +456,21 @@ def run_shard(shard, tier):
                 r.ev(clause, nontrivial)
                 if ok:
                     continue
-                # one witness per root cause: reduce the failing input, fingerprint = shape of the reduced input
-                if fp not in min_cache and len(min_cache) < ENUM_MAX_MINIMISATIONS_PER_SHARD:
-                    mcase, mv = _enum_minimise(case, verdict, cwd)
-                    min_cache[fp] = (mcase, mv[2], mv[4])
+                # one witness per root cause: a failing input is reduced to a locally minimal one that fails the
+                # same clause at the same site; its shape is the fingerprint.  Later failing inputs that contain an
+                # already found minimal input are attributed to it without being reduced again.
+                r.info['failing_evaluations'] += 1
+                known_min = minimal.setdefault((clause, where), [])
+                if any(_enum_contains(case, m) for m in known_min):
+                    continue
+                if r.info['failing_inputs_minimised'] < ENUM_MAX_MINIMISATIONS_PER_SHARD:
                     r.info['failing_inputs_minimised'] += 1
-                mcase, mdetail, mfp = min_cache.get(fp, (case, detail, fp))
-                if mfp not in reported:
-                    reported.add(mfp)
-                    r.fail(clause, mdetail, where, mcase, mfp)
+                    mcase, mv = _enum_minimise(case, verdict, cwd)
+                    if mcase not in known_min:
+                        known_min.append(mcase)
+                        r.fail(clause, mv[2], where, mcase, mv[4])
+                else:
+                    r.fail(clause, detail, where, case, fp)
             calls = [c for rec in observed for c in rec['calls']]
             r.info['process_creation_calls_observed'] += len(calls)
             if _enum_nonplain(case):
